@@ -28,7 +28,7 @@ for d in sorted((V / "seeded").iterdir()):
             res = list(ex.map(run, props))
     finally:
         subprocess.run(["git", "-C", "/repo", "checkout", "--", "."], check=True)
-    own = d.name.split("-")[0]
+    own = [x for x in d.name.split("-") if x.startswith("C")][0]
     caught = {p: k for p, rc, k in res if rc == 1}
     matrix[d.name] = {"own_property": own, "caught_by": caught, "own_check": caught.get(own, "MISSED"), "seed": seed,
                       "infra": [p for p, rc, k in res if rc not in (0, 1)]}
